@@ -51,6 +51,8 @@ func c3MaskOf(flags []string) int {
 			m |= c3Flagged
 		case "custom":
 			m |= c3Custom
+		case imap.FlagDeletedLowerCase:
+			m |= c3Deleted
 		default:
 			m |= 64
 		}
@@ -73,21 +75,38 @@ func VerifC03Commands() {
 	pool := make([]db.MessageIDPair, nA+1)
 	flags := make([]int, nA+1) // reference: per message flag mask
 	var refA, refB []c3Row
+	lean := vsymParam("lean") == 1 // fewer initial spellings, STORE only (used with two shared messages and a peer)
 	for i := 0; i < nA; i++ {
-		m := []int{0, c3Seen, c3Flagged | c3Custom}[vsymChoice("flags0", 3)]
-		lower := vsymChoice("lowerSpelling", 2) == 1
+		nf := 3
+		if lean {
+			nf = 2
+		}
+		m := []int{0, c3Seen, c3Flagged | c3Custom}[vsymChoice("flags0", nf)]
+		lower := !lean && vsymChoice("lowerSpelling", 2) == 1
 		pool[i] = w.addMessage(a, imap.UID(i+1), c3Spell(m, lower)...)
 		flags[i] = m
 		del := vsymChoice("deleted0", 2) == 1
 		a.Row(pool[i].InternalID).Deleted = del
 		refA = append(refA, c3Row{i, del})
 	}
-	// B holds one message of its own and, optionally, also the first message of A
+	// B holds one message of its own and, optionally, also the first message / all messages of A
 	pool[nA] = w.addMessage(b, 1)
 	refB = append(refB, c3Row{nA, false})
-	if nA > 0 && vsymChoice("shared", 2) == 1 {
-		b.AddRow(pool[0].InternalID, pool[0].RemoteID, 2, false, false)
-		refB = append(refB, c3Row{0, false})
+	nShared := 0
+	if nA == 1 || vsymParam("peer") == 0 { // sharing every message only matters to a peer session on B
+		nShared = vsymChoice("shared", 2)
+	} else {
+		switch vsymChoice("shared", 3) {
+		case 1:
+			nShared = 1
+		case 2:
+			nShared = nA
+		}
+	}
+	for i := 0; i < nShared; i++ {
+		sharedDel := vsymChoice("sharedDeleted", 2) == 1
+		b.AddRow(pool[i].InternalID, pool[i].RemoteID, imap.UID(2+i), sharedDel, false)
+		refB = append(refB, c3Row{i, sharedDel})
 	}
 
 	st := w.newState(1)
@@ -95,6 +114,17 @@ func VerifC03Commands() {
 	var mboxA *Mailbox
 	if err := st.Select(ctx, "A", func(m *Mailbox) error { mboxA = m; return nil }); err != nil {
 		panic(err)
+	}
+
+	// optionally a second session has B selected; it learns of the command through the update pipeline and
+	// then issues its own EXPUNGE (\Deleted is per mailbox: what the command did in A must not change what B loses)
+	var peer *State
+	var mboxB *Mailbox
+	if vsymParam("peer") == 1 {
+		peer = w.newState(2)
+		if err := peer.Select(ctxFor(peer), "B", func(m *Mailbox) error { mboxB = m; return nil }); err != nil {
+			panic(err)
+		}
 	}
 
 	// message set: "1", "1:*" or "*" (resolution itself is C16's subject)
@@ -121,7 +151,11 @@ func VerifC03Commands() {
 	arg := imap.NewFlagSetFromSlice(c3Spell(argMask, argLower))
 
 	var err error
-	op := vsymChoice("op", 8)
+	nOps := 8
+	if lean {
+		nOps = 3
+	}
+	op := vsymChoice("op", nOps)
 	switch op {
 	case 0, 1, 2: // STORE +FLAGS / -FLAGS / FLAGS
 		action := []command.StoreAction{command.StoreActionAddFlags, command.StoreActionRemFlags, command.StoreActionSetFlags}[op]
@@ -234,6 +268,38 @@ func VerifC03Commands() {
 		return
 	}
 	vsymCover("command-ok")
+	c3Compare(w.db, a, refA, pool, flags, "A")
+	c3Compare(w.db, b, refB, pool, flags, "B")
+	if peer == nil {
+		return
+	}
+	w.deliverAll(1)
+	_, err = peer.flushResponses(ctxFor(peer), true)
+	vsymAssert(err == nil, "peer NOOP succeeds")
+	// the peer's view of B: the messages of B with B's own \Deleted marks and the messages' flags
+	view := peer.snap.messages.msg
+	vsymAssert(len(view) == len(refB), "peer session sees exactly the messages of B")
+	if len(view) != len(refB) {
+		return
+	}
+	for i, m := range view {
+		vsymAssert(m.ID.InternalID == pool[refB[i].msg].InternalID, "peer session sees the messages of B in order")
+		fm := c3MaskOf(m.flags.Remove(imap.FlagRecent).ToSliceUnsorted())
+		vsymAssert((fm&c3Deleted != 0) == refB[i].deleted, "peer session sees B's own \\Deleted mark")
+		vsymAssert(fm&^c3Deleted == flags[refB[i].msg], "peer session sees the message flags")
+	}
+	if err := mboxB.Expunge(ctxFor(peer), nil); err != nil {
+		vsymCover("peer-expunge-error")
+		return
+	}
+	var keep []c3Row
+	for _, r := range refB {
+		if !r.deleted {
+			keep = append(keep, r)
+		}
+	}
+	refB = keep
+	vsymCover("peer-expunge-ok")
 	c3Compare(w.db, a, refA, pool, flags, "A")
 	c3Compare(w.db, b, refB, pool, flags, "B")
 }
